@@ -62,6 +62,8 @@ def int_pool(tier, rng):
             out += [p.FloorDiv(p.Product((a, 50)), pw), p.Remainder(p.Sum((a, 30)), pw), p.Product((a, pw)), p.Product((pw, a)), p.FloorDiv(pw, 2), p.Remainder(pw, 5),
                     p.Product((2, p.Power(p.Remainder(p.Sum((a, 7)), p.Sum((c, 2))), n))), p.Product((a, p.Power(p.FloorDiv(p.Sum((a, 9)), p.Sum((c, 1))), n))),
                     p.Sum((a, p.Product((-1, pw))))]
+    # constants whose product / sum does not fit a C int although every constant does and the value fits long long
+    out += [p.Product((100000, 100000, p.Sum((a, 1)))), p.Product((p.Sum((a, 1)), 100000, 100000)), p.Sum((2000000000, 2000000000, a)), p.Product((65536, 65536, 4, b))]
     cmps = [p.Comparison(x, op, y) for op in ("<", "<=", ">", ">=", "==", "!=") for x, y in ((a, b), (p.Sum((a, 1)), p.Product((b, 2))))]
     for cm in cmps:
         out += [cm, p.If(cm, a, p.Sum((b, 1))), p.Sum((p.If(cm, a, b), c)), p.Product((2, p.If(cm, p.Sum((a, b)), c))), p.LogicalNot(cm),
@@ -394,10 +396,15 @@ def cause_of(e):
     """Known-finding regions decided on the tree."""
     import pymbolic.primitives as p
     from props.c06 import all_nodes
-    bw = (p.BitwiseAnd, p.BitwiseOr, p.BitwiseXor)
     for n in all_nodes(e):
-        if isinstance(n, p.Comparison) and (isinstance(n.left, bw) or isinstance(n.right, bw)):
-            return ""
+        if isinstance(n, (p.Product, p.Sum)):
+            consts = [c for c in n.children if isinstance(c, int) and not isinstance(c, bool)]
+            if len(consts) >= 2:
+                acc = 1 if isinstance(n, p.Product) else 0
+                for c in consts:
+                    acc = acc * c if isinstance(n, p.Product) else acc + c
+                if abs(acc) >= 2 ** 31:
+                    return " cause=int-literal-arithmetic"
     return ""
 
 
